@@ -11,18 +11,19 @@
                                      ("Incomplete implementation", "Duplicate implementation")
      managers/variables/manager.cpp  assign_interface_view, interface_impl_exists,
                                      resolve_interface_source_type, find_variable (impl statics last)
-     managers/variables/static.cpp   get_impl_static_namespace, enter/exit_impl_context (ONE slot),
+     managers/variables/static.cpp   get_impl_static_namespace, enter/exit_impl_context (enter remembers an active context, exit restores it),
                                      find_impl_static_variable, create_impl_static_variable
      evaluator/functions/call_impl.cpp  method lookup by  type_name + "::" + name  (line ~1018),
-                                     self copy-in (~4330), enter_impl_context only for receivers
-                                     whose Variable::type is TYPE_INTERFACE (~5708), body, exit,
-                                     SELF_WRITEBACK (~6060)
+                                     self copy-in (~4330), enter_impl_context with the pair read from
+                                     the method's qualified_name "I::T::m" (~5725, fix ffeef7f), body,
+                                     exit (restores the caller's context, fix 3be9fd7), SELF_WRITEBACK
      evaluator/access/receiver_resolution.cpp  variable / pointer / array-element receivers
      handlers/control/return.cpp     handle_identifier_return (`return self;`)
 
    Abstractions (see notes/C12.md): a struct value is one field list (the flattened
    "x.f" variables and Variable::struct_members are one thing here); every field, argument,
-   static and result is an `int`; method bodies are straight-line. *)
+   static and result is an `int`; method bodies are straight-line, with calls  self.m(e)  of
+   call-free methods (one level of nesting). *)
 From Coq Require Import List Arith Bool Ascii String ZArith Lia.
 Import ListNotations.
 Local Open Scope string_scope.
@@ -61,7 +62,8 @@ Inductive expr :=
 Inductive stmt :=
 | SSetField (f : name) (e : expr)        (* self.f = e; *)
 | SSetStatic (n : name) (e : expr)       (* n = e; *)
-| SPrint (tag : string) (es : list expr) (* println("tag", e1, ...); *).
+| SPrint (tag : string) (es : list expr) (* println("tag", e1, ...); *)
+| SCallSelf (tag : string) (m : name) (e : expr) (* int r = self.m(e); println("tag", r); *).
 Record method := { m_name : name; m_body : list stmt; m_ret : expr }.
 Record impl_def := { i_iface : name; i_type : name; i_statics : list (name * Z); i_methods : list method }.
 Definition method_names (d : impl_def) : list name := map m_name (i_methods d).
@@ -88,9 +90,12 @@ Inductive err :=
 | EUnmodelled                     (* documented hole: an interface variable mixing struct and primitive payloads *).
 
 (* ---------- registration ---------- *)
+(* a registered method node: handle_impl_declaration stamps it with qualified_name = I::T::m *)
+Record fentry := { fe_iface : name; fe_type : name; fe_meth : method }.
+Definition mk_entry (d : impl_def) (m : method) : fentry := {| fe_iface := i_iface d; fe_type := i_type d; fe_meth := m |}.
 Record registry := {
   r_impls : list impl_def;               (* impl_definitions_ (deque, push_back) *)
-  r_funcs : list (string * method);      (* global_scope.functions, impl keys only *)
+  r_funcs : list (string * fentry);      (* global_scope.functions, impl keys only *)
   r_statics : list (string * Z)          (* impl_static_variables_ *)
 }.
 Definition empty_registry : registry := {| r_impls := []; r_funcs := []; r_statics := [] |}.
@@ -110,9 +115,9 @@ Definition impl_exists (ds : list impl_def) (i t : name) : bool := existsb (same
 Definition find_conflict (ds : list impl_def) (d : impl_def) : option name :=
   find (fun m => existsb (fun e => String.eqb (i_type e) (i_type d) && smem m (method_names e)) ds) (method_names d).
 
-Definition add_funcs (d : impl_def) (fs : list (string * method)) : list (string * method) :=
-  fold_left (fun acc m => aset (iface_key (i_iface d) (i_type d) (m_name m)) m
-                               (aset (method_key (i_type d) (m_name m)) m acc)) (i_methods d) fs.
+Definition add_funcs (d : impl_def) (fs : list (string * fentry)) : list (string * fentry) :=
+  fold_left (fun acc m => aset (iface_key (i_iface d) (i_type d) (m_name m)) (mk_entry d m)
+                               (aset (method_key (i_type d) (m_name m)) (mk_entry d m) acc)) (i_methods d) fs.
 Definition add_statics (d : impl_def) (ss : list (string * Z)) : list (string * Z) :=
   fold_left (fun acc nz => aset (static_key (i_iface d) (i_type d) (fst nz)) (snd nz) acc) (i_statics d) ss.
 
@@ -183,66 +188,102 @@ Fixpoint eval_list (fr : frame) (es : list expr) : list Z + err :=
               end
   end.
 
-Definition exec_stmt (fr : frame) (s : stmt) : frame + err :=
+(* a nested call  self.m(arg)  made from a running body: the frame after it and its result *)
+Definition callback := name -> Z -> frame -> (frame * Z) + (list line * err).
+
+(* on an error the output printed so far is kept (the process exits 1 after flushing it) *)
+Definition exec_stmt (cb : callback) (fr : frame) (s : stmt) : frame + (list line * err) :=
   match s with
   | SSetField f e =>
       match eval fr e with
-      | inr x => inr x
+      | inr x => inr (f_out fr, x)
       | inl v =>
           match f_self fr with
           | PStruct fs =>
               match alookup f fs with
-              | None => inr EBad
+              | None => inr (f_out fr, EBad)
               | Some _ => if int_ok v then inl {| f_self := PStruct (aset f v fs); f_arg := f_arg fr; f_statics := f_statics fr;
                                                    f_ctx := f_ctx fr; f_out := f_out fr |}
-                          else inr ERange
+                          else inr (f_out fr, ERange)
               end
-          | PPrim _ => inr EBad
+          | PPrim _ => inr (f_out fr, EBad)
           end
       end
   | SSetStatic n e =>
       match eval fr e with
-      | inr x => inr x
+      | inr x => inr (f_out fr, x)
       | inl v =>
           match static_name (f_ctx fr) n with
-          | None => inr (EUndefVar n)
+          | None => inr (f_out fr, EUndefVar n)
           | Some k =>
               match alookup k (f_statics fr) with
-              | None => inr (EUndefVar n)
+              | None => inr (f_out fr, EUndefVar n)
               | Some _ => if int_ok v then inl {| f_self := f_self fr; f_arg := f_arg fr; f_statics := aset k v (f_statics fr);
                                                    f_ctx := f_ctx fr; f_out := f_out fr |}
-                          else inr ERange
+                          else inr (f_out fr, ERange)
               end
           end
       end
   | SPrint tag es =>
       match eval_list fr es with
-      | inr x => inr x
+      | inr x => inr (f_out fr, x)
       | inl vs => inl {| f_self := f_self fr; f_arg := f_arg fr; f_statics := f_statics fr; f_ctx := f_ctx fr;
                          f_out := f_out fr ++ [(tag, vs)] |}
       end
+  | SCallSelf tag m e =>
+      match eval fr e with
+      | inr x => inr (f_out fr, x)
+      | inl v =>
+          match cb m v fr with
+          | inr x => inr x
+          | inl (fr1, z) => inl {| f_self := f_self fr1; f_arg := f_arg fr1; f_statics := f_statics fr1; f_ctx := f_ctx fr1;
+                                   f_out := f_out fr1 ++ [(tag, [z])] |}
+          end
+      end
   end.
-(* on an error the output printed so far is kept (the process exits 1 after flushing it) *)
-Fixpoint exec_body (fr : frame) (b : list stmt) : frame + (list line * err) :=
+Fixpoint exec_body (cb : callback) (fr : frame) (b : list stmt) : frame + (list line * err) :=
   match b with
   | [] => inl fr
-  | s :: r => match exec_stmt fr s with inl fr' => exec_body fr' r | inr x => inr (f_out fr, x) end
+  | s :: r => match exec_stmt cb fr s with inl fr' => exec_body cb fr' r | inr x => inr x end
   end.
-(* ReturnHandler::handle_identifier_return: `return self;` throws only when self is a struct;
-   for a primitive self nothing is thrown and the call yields 0 *)
-Definition eval_ret (fr : frame) (e : expr) : Z + err :=
-  match e, f_self fr with
-  | ESelf, PPrim _ => inl 0%Z
-  | _, _ => eval fr e
+
+(* one registered method run to completion: the impl context is the pair of the block that declares it
+   (call_impl.cpp ~5725: qualified_name), whatever the receiver is *)
+Definition run_method (cb : callback) (fe : fentry) (self : payload) (arg : Z)
+                      (statics : list (string * Z)) (out : list line) : (frame * Z) + (list line * err) :=
+  let fr := {| f_self := self; f_arg := arg; f_statics := statics; f_ctx := Some (fe_iface fe, fe_type fe); f_out := out |} in
+  match exec_body cb fr (m_body (fe_meth fe)) with
+  | inr x => inr x
+  | inl fr' => match eval fr' (m_ret (fe_meth fe)) with
+               | inr x => inr (f_out fr', x)
+               | inl z => inl (fr', z)
+               end
+  end.
+
+(* methods called from a body are call-free (one level of nesting; deeper programs are not generated) *)
+Definition no_nested : callback := fun _ _ fr => inr (f_out fr, EBad).
+(* self.m(arg) inside a method whose self has dynamic type t: same lookup T::m; the callee runs under ITS
+   block's context on a copy of the caller's current self; on return the caller's context is back
+   (static.cpp: enter pushes, exit pops) and - as the pinned code does - the callee's writes to self
+   are NOT carried back into the caller's self (finding C12-nested-self-writes-lost) *)
+Definition nested_self (funcs : list (string * fentry)) (t : name) : callback := fun m arg fr =>
+  match alookup (method_key t m) funcs with
+  | None => inr (f_out fr, EUndefFunc m)
+  | Some fe =>
+      match run_method no_nested fe (f_self fr) arg (f_statics fr) (f_out fr) with
+      | inr x => inr x
+      | inl (fr', z) =>
+          inl ({| f_self := f_self fr; f_arg := f_arg fr; f_statics := f_statics fr'; f_ctx := f_ctx fr; f_out := f_out fr' |}, z)
+      end
   end.
 
 (* ---------- program state ---------- *)
 Record state := {
   s_impls : list impl_def;
-  s_funcs : list (string * method);
+  s_funcs : list (string * fentry);
   s_statics : list (string * Z);
   s_vars : list (name * value);
-  s_ctx : option (name * name);          (* current_impl_context_ : a single slot, not a stack *)
+  s_ctx : option (name * name);          (* current_impl_context_ between calls (every call puts it back) *)
   s_out : list line
 }.
 Inductive res (A : Type) := Ok (a : A) | Fail (out : list line) (e : err).
@@ -281,15 +322,12 @@ Definition write (vs : list (name * value)) (l : loc) (v : value) : list (name *
                  end
   end.
 
-(* the receiver as an object: dynamic type (resolve_struct_like_type: struct_type_name), the payload
-   copied to self, and the impl context entered: only a receiver whose Variable::type is still
-   TYPE_INTERFACE, i.e. an interface variable holding a struct (assign_interface_view overwrites
-   `type` with the primitive's type otherwise) *)
-Definition obj_of (v : value) : option (name * payload * option (name * name)) :=
+(* the receiver as an object: dynamic type (resolve_struct_like_type: struct_type_name) and the payload
+   copied to self *)
+Definition obj_of (v : value) : option (name * payload) :=
   match v with
-  | VConc t p => Some (t, p, None)
-  | VIface i t (PStruct fs) => Some (t, PStruct fs, Some (i, t))
-  | VIface i t (PPrim z) => Some (t, PPrim z, None)
+  | VConc t p => Some (t, p)
+  | VIface _ t p => Some (t, p)
   | _ => None
   end.
 Definition with_payload (v : value) (p : payload) : value :=
@@ -302,44 +340,38 @@ Definition set_vars (st : state) (vs : list (name * value)) : state :=
 Definition emit (st : state) (l : line) : state := set_out st (s_out st ++ [l]).
 
 (* the receiver of  recv.m(..) : where it lives, what it holds now, its dynamic type, the copy that
-   becomes self, the impl context to enter *)
-Definition receiver (vs : list (name * value)) (r : recv) : option (loc * value * name * payload * option (name * name)) :=
+   becomes self *)
+Definition receiver (vs : list (name * value)) (r : recv) : option (loc * value * name * payload) :=
   match resolve vs r with
   | None => None
   | Some l =>
       match read vs l with
       | None => None
-      | Some v => match obj_of v with Some (t, self, enter) => Some (l, v, t, self, enter) | None => None end
+      | Some v => match obj_of v with Some (t, self) => Some (l, v, t, self) | None => None end
       end
   end.
 
-(* run the body `meth` with self := the copy, then write self back into the receiver *)
-Definition invoke (st : state) (l : loc) (v : value) (self : payload) (enter : option (name * name))
-                  (meth : method) (arg : Z) : res (state * Z) :=
-  let ctx := match enter with Some c => Some c | None => s_ctx st end in          (* enter_impl_context *)
-  let fr := {| f_self := self; f_arg := arg; f_statics := s_statics st; f_ctx := ctx; f_out := s_out st |} in
-  match exec_body fr (m_body meth) with
+(* run the registered method with self := the copy, then write self back into the receiver; the impl
+   context the caller had is in force again afterwards *)
+Definition invoke (st : state) (l : loc) (v : value) (t : name) (self : payload) (fe : fentry) (arg : Z) : res (state * Z) :=
+  match run_method (nested_self (s_funcs st) t) fe self arg (s_statics st) (s_out st) with
   | inr (o, x) => Fail o x
-  | inl fr' =>
-      match eval_ret fr' (m_ret meth) with
-      | inr x => Fail (f_out fr') x
-      | inl z =>
-          Ok ({| s_impls := s_impls st; s_funcs := s_funcs st;
-                 s_statics := f_statics fr';
-                 s_vars := write (s_vars st) l (with_payload v (f_self fr'));      (* SELF_WRITEBACK *)
-                 s_ctx := match enter with Some _ => None | None => s_ctx st end;  (* exit_impl_context: the slot is cleared *)
-                 s_out := f_out fr' |}, z)
-      end
+  | inl (fr', z) =>
+      Ok ({| s_impls := s_impls st; s_funcs := s_funcs st;
+             s_statics := f_statics fr';
+             s_vars := write (s_vars st) l (with_payload v (f_self fr'));      (* SELF_WRITEBACK *)
+             s_ctx := s_ctx st;                                                (* exit_impl_context: restored *)
+             s_out := f_out fr' |}, z)
   end.
 
 (* one method call  recv.m(arg)  : state after the call and the returned int *)
 Definition call (st : state) (r : recv) (m : name) (arg : Z) : res (state * Z) :=
   match receiver (s_vars st) r with
   | None => Fail (s_out st) EBad
-  | Some (l, v, t, self, enter) =>
+  | Some (l, v, t, self) =>
       match alookup (method_key t m) (s_funcs st) with            (* global_scope.functions.find(type_name + "::" + name) *)
       | None => Fail (s_out st) (EUndefFunc m)
-      | Some meth => invoke st l v self enter meth arg
+      | Some fe => invoke st l v t self fe arg
       end
   end.
 
